@@ -141,16 +141,19 @@ int aggregate(ParCSRMatrix* A, ParCSRMatrix* S, std::vector<int>& states,
             ctr = A->on_proc->idx1[i];
             max_val = 0.0;
             max_agg = -1; 
+            int max_col = -1; // global column of the strongest neighbor: equal strengths go to the smaller column, as in the sequential routine
             for (j = start; j < end; j++)
             {
                 col = S->on_proc->idx2[j];
                 while (A->on_proc->idx2[ctr] != col)
                     ctr++;
                 val = fabs(A->on_proc->vals[ctr]) + r[col];
-                if (val > max_val && aggregates[col] >= 0)
+                global_col = S->on_proc_column_map[col];
+                if (aggregates[col] >= 0 && (val > max_val || (val == max_val && max_agg >= 0 && global_col < max_col)))
                 {
                     max_val = val;
                     max_agg = aggregates[col];
+                    max_col = global_col;
                 }
             }
 
@@ -164,10 +167,11 @@ int aggregate(ParCSRMatrix* A, ParCSRMatrix* S, std::vector<int>& states,
                 while (A->off_proc_column_map[A->off_proc->idx2[ctr]] != global_col)
                     ctr++;
                 val = fabs(A->off_proc->vals[ctr]) + off_proc_r[col];
-                if (val > max_val && off_proc_aggregates[col] >= 0)
+                if (off_proc_aggregates[col] >= 0 && (val > max_val || (val == max_val && max_agg >= 0 && global_col < max_col)))
                 {
                     max_val = val;
                     max_agg = off_proc_aggregates[col];
+                    max_col = global_col;
                 }
             }
 
